@@ -956,6 +956,76 @@ impl<'a> Run<'a> {
         }
     }
 
+    /// `Extend::extend` on an ordered collection: children are accepted in order until the bounded
+    /// collection is full, the next one makes `push_back` panic (documented), the rest of the iterator
+    /// is dropped unused.
+    fn extend(&mut self, k: usize, plan: &Plan) {
+        if self.subj.is_none() || self.abort || k == 0 {
+            return;
+        }
+        let ids: Vec<Cid> = w(|x| {
+            let v: Vec<Cid> = (0..k).map(|_| x.new_child(Role::Fut, plan)).collect();
+            x.ev(|| format!("extend with children {v:?} {}", plan_short(plan)));
+            v
+        });
+        let room = match self.bounded_cap {
+            Some(cap) => cap.saturating_sub(self.running()),
+            None => usize::MAX,
+        };
+        let had_completion = w(|x| !x.completion_order.is_empty());
+        let a0 = alloc::alloc_count();
+        let subj = self.subj.as_mut().unwrap();
+        let r = catch_unwind(AssertUnwindSafe(|| sut(|| subj.extend(&ids))));
+        alloc::reset_depths();
+        let n_acc = k.min(room);
+        for &id in &ids[..n_acc] {
+            w(|x| {
+                x.accept(id);
+                x.labels |= lb::PUSH_BACK;
+                if had_completion {
+                    x.labels |= lb::SLOT_REUSE | lb::ACCEPT_AFTER_DONE;
+                }
+            });
+            self.accepted += 1;
+            self.stats.pushes += 1;
+            self.queue.push_back(id);
+        }
+        match r {
+            Ok(_) => {
+                if n_acc < k {
+                    w(|x| {
+                        x.violate(
+                            p(15),
+                            "C15/extend-beyond-capacity",
+                            format!("extend with {k} children returned normally although only {room} fit"),
+                        )
+                    });
+                }
+            }
+            Err(e) => {
+                alloc::set_alloc_count(a0);
+                let msg = panic_msg(&e);
+                self.stats.refused += 1;
+                w(|x| {
+                    x.labels |= lb::REFUSED;
+                    x.ev(|| format!("  -> extend panicked: {msg}"));
+                    if n_acc == k || !msg.contains("attempted to push into a full") {
+                        x.violate(
+                            p(15),
+                            format!("C15/push-panic/{}", short(&msg)),
+                            format!("extend with {k} children panicked ({msg}) although {room} fit"),
+                        );
+                    }
+                });
+                // the child that hit the full queue was dropped by push_back; the iterator was never advanced
+                // further, so the remaining ScriptFuts were never created: let the ledger know
+                for &id in &ids[(n_acc + 1).min(k)..] {
+                    drop(ScriptFut::<Plain>::new(id));
+                }
+            }
+        }
+    }
+
     // ---------------------------------------------------------------------------------------
     // observation (after every op)
 
@@ -1331,6 +1401,18 @@ impl<'a> Run<'a> {
                     self.push(pl, PushHow::TryBack);
                     if self.abort {
                         break;
+                    }
+                }
+            }
+            Op::Extend(k, pl) => {
+                if matches!(self.case.subj, Subj::OB | Subj::OU) {
+                    self.extend(*k as usize, pl);
+                } else {
+                    for _ in 0..*k {
+                        self.push(pl, PushHow::TryBack);
+                        if self.abort {
+                            break;
+                        }
                     }
                 }
             }
